@@ -58,6 +58,9 @@ def make_data(case):
         npts = case['npts'][ki]
         if case['basis'] == '2d':
             x = np.array([nprng.uniform(0.2, 2.0, size=npts), nprng.uniform(-1, 1, size=npts)])
+        elif case.get('via_corr'):
+            # integer timeslices of a correlator, with undefined slices in between
+            x = np.array(sorted(rng.sample(range(npts + 3), npts)), dtype=float)
         else:
             x = np.sort(nprng.uniform(0.1, 3.0, size=npts))
         feat, func = basis(case['basis'], npar)
@@ -91,7 +94,7 @@ def parse_prior(s):
     return v, e
 
 
-def gls(case, xs, ys, fb, priors, ctx=None):
+def gls(case, xs, ys, fb, priors, ctx=None, snap=None):
     """closed form: returns (parameters as Q objects, chisq, dof)"""
     keys = sorted(xs)
     npar = case['npar']
@@ -107,11 +110,11 @@ def gls(case, xs, ys, fb, priors, ctx=None):
             yobs.append(ys[key][p])
     A = np.array(rows)
     n = len(yobs)
-    [o.gamma_method() for o in yobs]
     yv = np.array([o.value for o in yobs])
-    dy = np.array([o.dvalue for o in yobs])
+    # the weights are frozen at the errors present when the fit was called (snapshot taken before the call)
+    dy = np.array([snap['dy'][id(o)] for o in yobs]) if snap else np.array([o.dvalue for o in yobs])
     if case['correlated']:
-        corr = pe.covariance(yobs, correlation=True)
+        corr = snap['corr'] if snap else pe.covariance(yobs, correlation=True)
         cov = np.diag(dy) @ corr @ np.diag(dy)
         W = np.linalg.inv(cov)
     else:
@@ -164,7 +167,7 @@ def check_case(ctx, case):
         npar = case['npar']
         _, func = basis(case['basis'], npar)
         for k in keys:
-            [o.gamma_method() for o in ys[k]]
+            [o.gamma_method(S=case.get('S_data', 2.0)) for o in ys[k]]
         # priors
         priors_arg, priors = None, {}
         if case['priors']:
@@ -232,15 +235,39 @@ def check_case(ctx, case):
                 x = x[..., p] if case['basis'] == '2d' else x[p]
                 y = [y[i] for i in p]
             call = lambda: pe.least_squares(x, y, func, **kw)  # noqa: E731
+        allpts_ = [o for k_ in (keys if case['combined'] else keys[:1]) for o in ys[k_]]
+        snap = {'dy': {id(o): float(o.dvalue) for o in allpts_}}
+        if case['correlated']:
+            snap['corr'] = pe.covariance(allpts_, correlation=True)
+        if case.get('via_corr') and not case['combined']:
+            T_ = int(x[-1]) + 2 if not case['perm'] else int(max(x)) + 2
+            xo, yo_ = (xs[keys[0]], ys[keys[0]])
+            content = [None] * T_
+            for xi, oi in zip(xo, yo_):
+                content[int(xi)] = oi
+            if int(min(xo)) > 0:
+                content[0] = yo_[0] * 3.0 + 1.0        # a defined slice outside the fit range
+            content[T_ - 1] = yo_[-1] * 0.5 - 2.0
+            [o_.gamma_method() for o_ in (content[0], content[T_ - 1]) if o_ is not None and o_ not in yo_]
+            cobj = pe.Corr(content)
+            call = lambda: cobj.fit(func, fitrange=[int(min(xo)), int(max(xo))], **kw)  # noqa: E731
         try:
             res = call()
         except Exception as e:
+            if 'Cannot invert correlation matrix' in str(e):
+                # more points than configurations: the estimated correlation matrix is singular and the library refuses
+                ctx.count('refused:singular-correlation-matrix')
+                return probs
+            if 'did not converge' in str(e):
+                # the minimiser reports its own failure: no result to judge (contract of the external engine)
+                ctx.count('minimiser-did-not-converge:' + case['method'])
+                return probs
             probs.append(('violation', 'fit-exception:' + case['method'], '%s: %s' % (type(e).__name__, str(e)[:200])))
             return probs
         if case['correlated'] and case['priors']:
             # correlated fits treat prior rows as uncorrelated extra rows: same closed form
             pass
-        params, chisq, dof, phat = gls(case, xs if case['combined'] else {keys[0]: xs[keys[0]]}, ys if case['combined'] else {keys[0]: ys[keys[0]]}, fb, priors, ctx)
+        params, chisq, dof, phat = gls(case, xs if case['combined'] else {keys[0]: xs[keys[0]]}, ys if case['combined'] else {keys[0]: ys[keys[0]]}, fb, priors, ctx, snap)
         loose = case['method'] in ('Nelder-Mead', 'Powell')
         [p.gamma_method() for p in res.fit_parameters]
         for i in range(npar):
@@ -293,6 +320,10 @@ def gen_case(ctx):
             'npts': [rng.randint(npar + 2, npar + 6) for _ in range(nk)], 'ens': sorted(rng.sample(['A', 'B', 'C'], rng.choice([1, 2, 3]))),
             'corr': rng.choice([0.0, 0.5, 1.5]), 'method': rng.choice(['LM', 'LM', 'LM', 'migrad', 'Nelder-Mead', 'Powell']),
             'correlated': rng.random() < 0.3, 'num_grad': rng.random() < 0.2, 'perm': rng.random() < 0.5, 'priors': rng.random() < 0.4}
+    case['S_data'] = rng.choice([2.0, 2.0, 0.0, 4.0])
+    case['via_corr'] = (not combined) and b == 'poly' and rng.random() < 0.4
+    if case['via_corr']:
+        case['ens'] = case['ens'][:1]       # a correlator needs all timeslices on the same chains
     if case['priors']:
         which = sorted(rng.sample(range(npar), rng.randint(1, npar)))
         case.update({'prior_idx': which, 'prior_kind': rng.choice(['str', 'obs']), 'prior_form': rng.choice(['list', 'dict']), 'prior_rev': rng.random() < 0.5})
